@@ -61,6 +61,7 @@ THEOREMS = [
 U64 = 2.0 ** -53
 U32 = 2.0 ** -24
 EPS = Fr(1, 10 ** 6)            # numeric_grad / numeric_jacobian default step on float64
+FLOOR = 1e-12                   # absolute floor (second-order rounding where the first-order bounds vanish)
 RAT_FNS = ("sq", "cube", "recip")
 TRANS_FNS = ("sin", "cos", "exp", "log", "sqrt", "tanh")
 FN_DEFS = "sq::{x*x};cube::{x*x*x};recip::{1%x}"
@@ -313,34 +314,40 @@ class NotSmooth(Exception):
 
 
 class DN:
-    """dual number with a running rounding-error bound: v value, d derivative part,
-    err  bound (in units of the unit roundoff) on the absolute rounding error of a float
-         evaluation of v,  md  sum of the magnitudes of the terms making up d"""
-    __slots__ = ("v", "d", "err", "md")
+    """dual number with running first-order rounding-error bounds (in units of the unit
+    roundoff): v value, d derivative part, err bound on the absolute rounding error of a
+    floating-point evaluation of v, derr the same for d (forward or reverse mode: the local
+    derivative factors are the same)"""
+    __slots__ = ("v", "d", "err", "derr")
 
-    def __init__(self, v, d, err, md):
-        self.v, self.d, self.err, self.md = v, d, err, md
+    def __init__(self, v, d, err, derr):
+        self.v, self.d, self.err, self.derr = v, d, err, derr
 
 
 def _f(x):
     return float(x)
 
 
+def _a(x):
+    return abs(float(x))
+
+
 def dn_const(c):
-    return DN(c, c * 0, abs(_f(c)), 0.0)
+    return DN(c, c * 0, _a(c), 0.0)
 
 
 def dn_add(a, b, sign=1):
     v = a.v + b.v if sign > 0 else a.v - b.v
     d = a.d + b.d if sign > 0 else a.d - b.d
-    return DN(v, d, a.err + b.err + abs(_f(v)), a.md + b.md)
+    return DN(v, d, a.err + b.err + _a(v), a.derr + b.derr + _a(d))
 
 
 def dn_mul(a, b):
     v = a.v * b.v
     d = a.d * b.v + a.v * b.d
-    return DN(v, d, a.err * abs(_f(b.v)) + abs(_f(a.v)) * b.err + abs(_f(v)),
-              a.md * abs(_f(b.v)) + abs(_f(a.v)) * b.md)
+    return DN(v, d, a.err * _a(b.v) + _a(a.v) * b.err + _a(v),
+              a.derr * _a(b.v) + _a(a.d) * b.err + a.err * _a(b.d) + _a(a.v) * b.derr
+              + _a(a.d * b.v) + _a(a.v * b.d) + _a(d))
 
 
 def dn_recip(b, what):
@@ -348,7 +355,8 @@ def dn_recip(b, what):
         raise NotSmooth(what)
     v = 1 / b.v
     d = -b.d / (b.v * b.v)
-    return DN(v, d, b.err / _f(b.v) ** 2 + abs(_f(v)), b.md / _f(b.v) ** 2)
+    bv = _a(b.v)
+    return DN(v, d, b.err / bv ** 2 + _a(v), b.derr / bv ** 2 + 2 * _a(b.d) * b.err / bv ** 3 + 3 * _a(d))
 
 
 def dn_div(a, b):
@@ -356,7 +364,7 @@ def dn_div(a, b):
 
 
 def dn_neg(a):
-    return DN(-a.v, -a.d, a.err, a.md)
+    return DN(-a.v, -a.d, a.err, a.derr)
 
 
 def dn_pow(a, k):
@@ -366,44 +374,50 @@ def dn_pow(a, k):
         return DN(a.v * 0 + 1, a.d * 0, 1.0, 0.0)
     v = a.v ** k
     d = k * a.v ** (k - 1) * a.d           # the power rule, written out (the model multiplies repeatedly)
-    av = abs(_f(a.v))
-    return DN(v, d, k * av ** (k - 1) * a.err + k * abs(_f(v)), k * av ** (k - 1) * a.md)
+    av = _a(a.v)
+    second = k * (k - 1) * av ** (k - 2) if k >= 2 else 0.0
+    return DN(v, d, k * av ** (k - 1) * a.err + k * _a(v),
+              k * av ** (k - 1) * a.derr + second * _a(a.d) * a.err + (k + 1) * _a(d))
 
 
 def dn_fn(name, a):
     x = a.v
     if name == "sq":
-        f, fp = x * x, 2 * x
+        f, fp, fpp = x * x, 2 * x, 2
     elif name == "cube":
-        f, fp = x * x * x, 3 * x * x
+        f, fp, fpp = x * x * x, 3 * x * x, 6 * x
     elif name == "recip":
         if abs(x) < Fr(1, 4):
             raise NotSmooth("recip near zero")
-        f, fp = 1 / x, -1 / (x * x)
+        f, fp, fpp = 1 / x, -1 / (x * x), 2 / (x * x * x)
     else:
         x = float(x)
         if name == "sin":
-            f, fp = math.sin(x), math.cos(x)
+            f, fp, fpp = math.sin(x), math.cos(x), -math.sin(x)
         elif name == "cos":
-            f, fp = math.cos(x), -math.sin(x)
+            f, fp, fpp = math.cos(x), -math.sin(x), -math.cos(x)
         elif name == "exp":
             if x > 6:
                 raise NotSmooth("exp of a large value")
-            f, fp = math.exp(x), math.exp(x)
+            f = fp = fpp = math.exp(x)
         elif name == "log":
             if x < 0.25:
                 raise NotSmooth("log near or below zero")
-            f, fp = math.log(x), 1 / x
+            f, fp, fpp = math.log(x), 1 / x, -1 / (x * x)
         elif name == "sqrt":
             if x < 0.25:
                 raise NotSmooth("sqrt near or below zero")
-            f, fp = math.sqrt(x), 0.5 / math.sqrt(x)
+            f, fp, fpp = math.sqrt(x), 0.5 / math.sqrt(x), -0.25 / x ** 1.5
         elif name == "tanh":
-            f, fp = math.tanh(x), 1 - math.tanh(x) ** 2
+            t = math.tanh(x)
+            f, fp, fpp = t, 1 - t * t, -2 * t * (1 - t * t)
         else:
             raise ValueError(name)
-        return DN(f, fp * float(a.d), abs(fp) * a.err + 4 * abs(f) + 1e-300, abs(fp) * a.md)
-    return DN(f, fp * a.d, abs(_f(fp)) * a.err + 3 * abs(_f(f)), abs(_f(fp)) * a.md)
+        d = fp * float(a.d)
+        return DN(f, d, abs(fp) * a.err + 4 * abs(f) + 1e-300,
+                  abs(fp) * a.derr + abs(fpp) * _a(a.d) * a.err + 6 * abs(d))
+    d = fp * a.d
+    return DN(f, d, _a(fp) * a.err + 3 * _a(f), _a(fp) * a.derr + _a(fpp) * _a(a.d) * a.err + 4 * _a(d))
 
 
 def _bc(a, b, fn):
@@ -434,8 +448,7 @@ def pd_eval(n, env, seed):
     if k == "par":
         off = env.offset[n[1]]
         vals = env.flat(n[1])
-        out = [DN(v, Fr(1 if off + i == seed else 0), abs(_f(v)), 1.0 if off + i == seed else 0.0)
-               for i, v in enumerate(vals)]
+        out = [DN(v, Fr(1 if off + i == seed else 0), _a(v), 0.0) for i, v in enumerate(vals)]
         return out[0] if env.kind(n[1]) == "S" else out
     if k == "add":
         return _bc(pd_eval(n[1], env, seed), pd_eval(n[2], env, seed), dn_add)
@@ -491,7 +504,7 @@ class Oracle:
         self.val = [cols[0][i].v for i in range(m)]
         self.jac = [[cols[s][i].d for s in range(env.n)] for i in range(m)]
         self.err = [max(c[i].err for c in cols) for i in range(m)]            # rounding-error bound of output i
-        self.md = [[cols[s][i].md for s in range(env.n)] for i in range(m)]   # magnitude of the terms of d
+        self.derr = [[cols[s][i].derr for s in range(env.n)] for i in range(m)]  # rounding-error bound of d out_i/d in_s
         for v in self.val:
             if abs(_f(v)) > 1e6:
                 raise NotSmooth("value too large for the grid")
@@ -728,7 +741,7 @@ def to_np(r):
 INLINE_SAFE = {"const", "vconst", "par", "add", "sub", "mul", "div", "pow", "sum", "prod", "idx", "join", "neg",
                "count", "flat"}
 SINGLE_FORMS = ["ag", "ag-named", "ag-sym", "nabla", "nabla-sym", "nabla-monad"]
-JAC_FORMS = ["partial", "partial-named", "sysjac"]
+JAC_FORMS = ["partial", "partial-named", "sysjac", "sysjac-named"]
 
 
 def depends(tree, name):
@@ -760,13 +773,6 @@ def program(form, body, env, as_int=False, tree=None):
                 form = "nabla-sym"
             elif form in ("partial", "partial-named"):
                 p = f"({p})"
-        if form == "sysjac" and (body.lstrip("(")[:1] in ("-", "#") or
-                                 (tree is not None and not ops_in(tree) <= INLINE_SAFE)):
-            # a function literal passed to a SYSTEM function goes through the interpreter's argument
-            # evaluation (`call`), which invokes / partially applies literals whose body is a monad or
-            # contains calls (`.p({-x})` fails the same way; `.jacobian({recip(cube(x))};p)` differentiates
-            # a constant).  That is application (C03), not differentiation: such bodies are passed by name.
-            return f"g::{{{body}}};.jacobian(g;{p})"
         return {
             "ag": f"{{{body}}}:>{p}",
             "ag-named": f"f::{{{body}}};f:>{p}",
@@ -777,6 +783,7 @@ def program(form, body, env, as_int=False, tree=None):
             "partial": f"{p}∂{{{body}}}",
             "partial-named": f"g::{{{body}}};{p}∂g",
             "sysjac": f".jacobian({{{body}}};{p})",
+            "sysjac-named": f"g::{{{body}}};.jacobian(g;{p})",
         }[form]
     binds = ";".join(f"{k}::{point_lit(env.params[k])}" for k in names)
     if form == "multi-ag":
@@ -892,18 +899,38 @@ def allowances(orc, backend, numeric, nops):
     """per output i, per input j: tolerance on |real - exact|"""
     m, n = len(orc.jac), len(orc.jac[0])
     J = np.array([[float(x) for x in row] for row in orc.jac], dtype=float).reshape(m, n)
-    MD = np.array(orc.md, dtype=float).reshape(m, n)
+    DE = np.array(orc.derr, dtype=float).reshape(m, n)
     tol = np.zeros((m, n))
     for i in range(m):
         scale = float(np.max(np.abs(J[i]))) if n else 0.0
         if numeric:
             # 1e-5 relative (the property) + rounding of f(x+h) - f(x-h): 2*err*u / (2*eps), x4 safety
             round_off = 4 * orc.err[i] * U64 / float(EPS)
-            tol[i, :] = 1e-5 * scale + round_off
+            tol[i, :] = 1e-5 * scale + round_off + FLOOR
         else:
             # float32 autograd: 1e-3 relative (the property) + rounding of the backward products
-            tol[i, :] = 1e-3 * scale + 8 * (nops + 2) * U32 * MD[i] + 1e-30
+            tol[i, :] = 1e-3 * scale + 8 * U32 * DE[i] + FLOOR
     return J, tol
+
+
+def judge(got, orc, backend, numeric, nops):
+    """'ok' | 'float32-evaluation' | 'wrong-value', with the exact table, tolerance and first bad index"""
+    m, n = len(orc.jac), len(orc.jac[0])
+    J, tol = allowances(orc, backend, numeric, nops)
+    finite = bool(np.all(np.isfinite(got)))
+    bad = np.abs(got - J) > tol
+    if finite and not bad.any():
+        return "ok", J, tol, None
+    i, j = np.argwhere(bad | ~np.isfinite(got))[0]
+    kind = "wrong-value"
+    if backend == "torch" and numeric and finite:
+        # numeric differentiation on the torch backend: the step is 1e-6 (float64 is "supported")
+        # but the function is evaluated through float32 tensors.  Is the deviation within what
+        # float32 rounding of f explains?
+        noise = np.array([[4 * orc.err[a] * U32 / float(EPS)] * n for a in range(m)])
+        if not (np.abs(got - J) > tol + noise).any():
+            kind = "float32-evaluation"
+    return kind, J, tol, (int(i), int(j))
 
 
 def run_case(ctx, model, real, fam, tree, params, forms=None, backends=None, quick=True):
@@ -945,8 +972,8 @@ def run_case(ctx, model, real, fam, tree, params, forms=None, backends=None, qui
             mv, mj = model.jacf(otree, oenv)
             a = np.array(mj, dtype=float).reshape(m, n)
             b = np.array([[float(x) for x in r] for r in orc.jac], dtype=float).reshape(m, n)
-            md = np.array(orc.md, dtype=float).reshape(m, n)
-            if not np.all(np.abs(a - b) <= 1e-9 * np.maximum(np.abs(b), md) + 1e-300):
+            de = np.array(orc.derr, dtype=float).reshape(m, n)
+            if not np.all(np.abs(a - b) <= 1e-9 * np.abs(b) + 64 * U64 * de + 1e-300):
                 ctx.mismatch("Klong.C06.gradient over Float vs independent forward-mode evaluation",
                              base, a.tolist(), b.tolist())
                 return
@@ -970,7 +997,7 @@ def run_case(ctx, model, real, fam, tree, params, forms=None, backends=None, qui
         elif fam == "matrix":
             forms = ctx.rng.sample(["ag", "ag-sym", "nabla", "nabla-sym", "nabla-monad"], 2 if quick else 5)
         elif fam == "jac":
-            forms = ctx.rng.sample(JAC_FORMS, 2 if quick else 3)
+            forms = ctx.rng.sample(JAC_FORMS, 2 if quick else 4)
         elif fam == "multi":
             forms = ["multi-ag"]
         else:
@@ -997,6 +1024,11 @@ def run_case(ctx, model, real, fam, tree, params, forms=None, backends=None, qui
             usable.append(backend)
         else:
             ctx.bump(f"skipped:function-value-differs({backend})")
+            ctx.extra.setdefault("function_value_differs", [])
+            if len(ctx.extra["function_value_differs"]) < 12:
+                ctx.extra["function_value_differs"].append(
+                    dict(backend=backend, program=value_program(body, env), got=repr(val)[:120],
+                         want=[float(v) for v in orc.val]))
     backends = usable
     unused = [nm for nm in env.params if not depends(tree, nm)]
 
@@ -1016,12 +1048,42 @@ def run_case(ctx, model, real, fam, tree, params, forms=None, backends=None, qui
                 numeric = True
                 site = "torch:jacobian:numeric-fallback"
                 ctx.bump("torch-jacobian-fell-back-to-numeric")
+            if form in ("sysjac", "sysjac-named"):
+                # `.jacobian(f;p)` receives f through the interpreter's evaluation of SYSTEM-function
+                # arguments (`call`), which invokes / partially applies function values whose body holds
+                # monads, adverbs or calls (`.p({-x})` fails the same way).  When `p∂f` — the same
+                # jacobian_of_fn on the same f — is right and `.jacobian` is not, the failure is that.
+                g0 = assemble(val, form, env, m, n) if status == "ok" else None
+                if g0 is None or judge(g0, orc, backend, numeric, nops)[0] != "ok":
+                    st2, v2, fb2 = real.run(backend, program("partial-named", body, env, as_int, tree))
+                    g2 = assemble(v2, "partial-named", env, m, n) if st2 == "ok" else None
+                    if g2 is not None and judge(g2, orc, backend, numeric or fb2, nops)[0] != "wrong-value":
+                        ctx.bump("deviation:sysjac:function-argument-evaluation")
+                        ctx.oracle_fail("sysjac:function-argument-evaluation", case,
+                                        [[float(q) for q in r] for r in orc.jac],
+                                        val if status == "exc" else g0.tolist() if g0 is not None else repr(val)[:200],
+                                        ".jacobian(f;p) differs from the exact Jacobian although p∂f returns it")
+                        continue
             if status == "exc" and backend == "torch" and unused and not numeric and fclass != "jacobian":
                 # autograd: the output is not connected to (one of) the differentiated inputs
                 ctx.bump("raises:torch:autograd:parameter-not-used")
                 ctx.oracle_fail("torch:autograd:parameter-not-used", case, "zero gradient for the unused parameter",
                                 val, f"the function does not depend on {unused}: its derivative there is 0 "
                                      "(numpy returns 0), torch autograd raises instead")
+                continue
+            if status == "exc" and "Integers to negative integer powers" in val:
+                # `^` turns whole-valued results into integers; an integer ARRAY (the probes are 0-d /
+                # n-d arrays) to a negative power is refused by numpy.  Plain `([2.0 1.0]^2)^-1` fails alike.
+                ctx.bump("raises:power:integer-array-negative-exponent")
+                ctx.oracle_fail("power:integer-array-negative-exponent", case, "the derivative", val,
+                                "a whole-valued power result is coerced to an integer array; raising it to a "
+                                "negative power raises inside the differentiated function")
+                continue
+            if status == "exc" and backend == "torch" and numeric and "must be Tensor, not" in val:
+                ctx.bump("raises:torch:numeric:backend-function-on-scalar")
+                ctx.oracle_fail("torch:numeric:backend-function-on-scalar", case, "the derivative", val,
+                                "numeric differentiation hands numpy scalars to the function; a .bkf function "
+                                "outside the wrapper's scalar-converting list (tanh) rejects them")
                 continue
             if status == "exc":
                 ctx.bump(f"raises:{site}")
@@ -1032,20 +1094,9 @@ def run_case(ctx, model, real, fam, tree, params, forms=None, backends=None, qui
             if got is None:
                 ctx.oracle_fail(f"{site}:wrong-shape", case, f"{m}x{n} values", repr(val)[:300])
                 continue
-            J, tol = allowances(orc, backend, numeric, nops)
-            if fell_back and backend == "torch":
-                tol = tol  # the property's numeric tolerance applies: 1e-5 relative
-            bad = np.abs(got - J) > tol
-            if bad.any() or not np.all(np.isfinite(got)):
-                i, j = np.argwhere(bad | ~np.isfinite(got))[0]
-                kind = "wrong-value"
-                if backend == "torch" and numeric and np.all(np.isfinite(got)):
-                    # numeric differentiation on the torch backend: the step is 1e-6 (float64 is
-                    # "supported") but the function is evaluated through float32 tensors.  Is the
-                    # deviation within what float32 rounding of f explains?
-                    noise = np.array([[4 * orc.err[a] * U32 / float(EPS)] * n for a in range(m)])
-                    if not (np.abs(got - J) > tol + noise).any():
-                        kind = "float32-evaluation"
+            kind, J, tol, where = judge(got, orc, backend, numeric, nops)
+            if kind != "ok":
+                i, j = where
                 ctx.oracle_fail(f"{site}:{kind}", case,
                                 dict(exact=J.tolist(), tolerance=float(tol[i, j]), component=[int(i), int(j)]),
                                 got.tolist(),
@@ -1327,6 +1378,7 @@ FIXED = [
     ("matrix", ["sum", ["flat", ["pow", ["add", ["sub", ["const", "3/1"], ["par", "x"]], ["const", "-2/1"]], -1]]],
      {"x": [[Fr(3, 2), Fr(3)], [Fr(1, 2), Fr(5, 2)], [Fr(-1, 2), Fr(2)]]}),
     ("jac", ["join", [["mul", ["par", "x"], ["const", "1/2"]], ["const", "1/4"]]], {"x": [Fr(1), Fr(2)]}),
+    ("jac", ["call", "recip", ["call", "cube", ["par", "x"]]], {"x": [Fr(1, 2)]}),
 ]
 
 
